@@ -87,7 +87,7 @@ func parseOne(b []byte, base, depth int) (*Node, []byte, error) {
 	if l < 0 || hdr+l > len(b) {
 		return nil, nil, fmt.Errorf("%w: length %d exceeds input", ErrParse, l)
 	}
-	n := &Node{Tag: tag, Off: base, HdrLen: hdr, Len: l, Raw: b[:hdr+l:hdr+l]}
+	n := &Node{Tag: tag, Off: base, HdrLen: hdr, Len: l, Raw: b[: hdr+l : hdr+l]}
 	body := b[hdr : hdr+l]
 	if tag&0x20 != 0 {
 		off := base + hdr
